@@ -1339,14 +1339,20 @@ func (s *Session) binop(fr *Frame, st *State, op token.Token, a, b Val, opndT, r
 			s.assume(Ge(r, I(0)))
 			s.assume(Eq(Eq(r, I(0)), And(Eq(x, I(0)), Eq(y, I(0)))))
 			return scalar(resT, r)
-		case token.LSS:
-			return scalar(resT, s.uf("strlt", SBool, x, y))
-		case token.GTR:
-			return scalar(resT, s.uf("strlt", SBool, y, x))
-		case token.LEQ:
-			return scalar(resT, Not(s.uf("strlt", SBool, y, x)))
-		case token.GEQ:
-			return scalar(resT, Not(s.uf("strlt", SBool, x, y)))
+		case token.LSS, token.GTR, token.LEQ, token.GEQ:
+			// the string order is a strict total order: irreflexive, asymmetric, total on distinct strings
+			lt, gt := s.uf("strlt", SBool, x, y), s.uf("strlt", SBool, y, x)
+			s.assume(And(Not(And(lt, gt)), Imp(Eq(x, y), And(Not(lt), Not(gt))), Imp(Not(Eq(x, y)), Or(lt, gt))))
+			switch op {
+			case token.LSS:
+				return scalar(resT, lt)
+			case token.GTR:
+				return scalar(resT, gt)
+			case token.LEQ:
+				return scalar(resT, Not(gt))
+			default:
+				return scalar(resT, Not(lt))
+			}
 		}
 	}
 	if isFloat(opndT) {
